@@ -32,6 +32,7 @@ type Env struct {
 	defers    []deferred
 	clock     Term // allocation clock
 	postFrame *postFrame
+	tr        *traceState
 	delegated int
 	aliasTy   map[string]types.Type
 	trace     Term // ghost event trace (sequence id)
@@ -41,7 +42,7 @@ type Env struct {
 func (e *Env) clone() *Env {
 	n := &Env{vars: make(map[types.Object]Term, len(e.vars)), heaps: make(map[string]Term, len(e.heaps)),
 		tags: make(map[string]int, len(e.tags)), alias: make(map[string]Term, len(e.alias)), held: make(map[string]string, len(e.held)),
-		clock: e.clock, trace: e.trace, tlen: e.tlen, delegated: e.delegated, aliasTy: make(map[string]types.Type, len(e.aliasTy))}
+		clock: e.clock, trace: e.trace, tlen: e.tlen, delegated: e.delegated, tr: e.tr, aliasTy: make(map[string]types.Type, len(e.aliasTy))}
 	for k, v := range e.aliasTy {
 		n.aliasTy[k] = v
 	}
@@ -163,6 +164,8 @@ type Unit struct {
 	lamTok        map[string]string
 	boxedStatic   map[string]types.Type
 	tparamWitness map[string][]Term
+	litDepth      int
+	litTarget     *ast.FuncLit
 	heapSorts     map[string]Sort
 	preHeaps      map[string]Sort
 	setupDone     bool
